@@ -59,6 +59,7 @@ type Config struct {
 	Pin          map[string]uint64 // concrete values for nondeterministic inputs (validation mode)
 	SampleEvery  int // keep a model for cross-validation every N completed paths
 	Seed         int
+	Stubs        map[string]string // function name -> "zero": body replaced by returning zero values (listed in evidence)
 }
 
 func hasPrefixAny(s string, ps []string) bool {
@@ -131,6 +132,7 @@ type Result struct {
 	AssertSites   map[string]int // label -> evaluations on feasible paths
 	Funcs         []string
 	SkippedGo     []string
+	StubsUsed     []string
 	Samples       []PathSample
 	SampleObligs  []string
 	Wall          time.Duration
@@ -151,6 +153,7 @@ type Explorer struct {
 	res     *Result
 	funcs   map[string]bool
 	skipGo  map[string]bool
+	stubsUsed map[string]bool
 	npaths  int
 	stop    bool
 }
@@ -160,6 +163,7 @@ func NewExplorer(prog *ssa.Program, entry *ssa.Function, cfg *Config) *Explorer 
 	x.cond = sync.NewCond(&x.mu)
 	x.funcs = map[string]bool{}
 	x.skipGo = map[string]bool{}
+	x.stubsUsed = map[string]bool{}
 	x.res = &Result{Entry: entry.Name(), Aborted: map[string]int{}, Reached: map[string]int{}, AssertSites: map[string]int{}}
 	return x
 }
@@ -188,6 +192,10 @@ func (x *Explorer) Run() *Result {
 		x.res.SkippedGo = append(x.res.SkippedGo, f)
 	}
 	sort.Strings(x.res.SkippedGo)
+	for f := range x.stubsUsed {
+		x.res.StubsUsed = append(x.res.StubsUsed, f)
+	}
+	sort.Strings(x.res.StubsUsed)
 	x.res.Wall = time.Since(t0)
 	return x.res
 }
